@@ -23,12 +23,16 @@ ID = 'C15'
 LEVEL = 'exploration'
 RULE = ('one run = one seeded history through a live connection on a DB '
         'over FileStorage (simulated disk), MappingStorage or DemoStorage '
+        '(over mapping or file; optionally the leading operations are '
+        'committed to the base alone, which is then reopened and wrapped, so '
+        'that historical points fall into the base\'s own history) '
         '(modify, create, drop from the root, undo incl. undo of a '
         'creation, pack to an older time), with the simulated clock spacing '
         'the commits; then historical connections are opened at every '
         'transaction in every input form (at= / before= x raw id, id+1, '
         'naive and timezone-aware datetime between two transactions) '
-        'through a small historical pool; while each is open the live connection keeps '
+        'through a small historical pool; while each is open the live '
+        'connection keeps '
         'committing and the storage is packed to older times, the '
         'historical connection re-reads across boundaries and cache '
         'minimisation; oracle: every value equals the model state at the '
